@@ -70,7 +70,8 @@ Ltac in_sub := let a := fresh "a" in let Ha := fresh "Ha" in intros a Ha; cbn [I
 
 (* clause keywords after the FROM clause, in order, and what may follow a SELECT *)
 Definition Tstop : list tty := [TyEOF; TySemicolon; TyRParen; TyUnion; TyExcept; TyIntersect; TyReturning; TyOn].
-Definition T5 := TyOffset :: Tstop.
+Definition T6 := TyFetch :: Tstop.
+Definition T5 := TyOffset :: T6.
 Definition T4 := TyLimit :: T5.
 Definition T3 := TyOrder :: T4.
 Definition T2 := TyHaving :: T3.
@@ -79,7 +80,7 @@ Definition T0 := TyWhere :: T1.
 Definition Tjoin : list tty := [TyJoin; TyInner; TyLeft; TyRight; TyFull; TyCross; TyNatural].
 Definition TJ0 := Tjoin ++ T0.
 Definition Titems := TyFrom :: T0.
-Ltac in_sub2 := let a := fresh "a" in let Ha := fresh "Ha" in intros a Ha; unfold Titems, TJ0, Tjoin, T0, T1, T2, T3, T4, T5, Tstop in *; cbn [In app] in *; tauto.
+Ltac in_sub2 := let a := fresh "a" in let Ha := fresh "Ha" in intros a Ha; unfold Titems, TJ0, Tjoin, T0, T1, T2, T3, T4, T5, T6, Tstop in *; cbn [In app] in *; tauto.
 
 Lemma sel_follow_hd : forall stop, sel_follow stop -> hd_in Tstop stop.
 Proof.
@@ -270,13 +271,25 @@ Section SP.
     - unfold ps_limit. hd_rw HR. reflexivity.
   Qed.
 
-  Lemma ps_offset_ok : forall o R, optb number_ok o = true -> hd_in Tstop R ->
+  Lemma ps_offset_ok : forall o R, optb number_ok o = true -> hd_in T6 R ->
       ps_offset (offset_toks o ++ R) = Val (option_map dec_value o, R).
   Proof.
     intros o R Hok HR. unfold offset_toks. destruct o as [s|]; cbn [opt_clause app option_map optb] in *.
     - unfold ps_offset. cbn [cur advance lit]. unfold is_numeric_literal. isT_conc. cbn iota. cbn [negb]. rewrite sscanf_digits by exact Hok.
       hd_rw HR. reflexivity.
     - unfold ps_offset. hd_rw HR. reflexivity.
+  Qed.
+
+  Lemma ps_fetch_ok : forall o R, optb (fun f => number_ok (ft_count f)) o = true -> hd_in Tstop R ->
+      ps_fetch (fetch_toks o ++ R) = Val (option_map ast_of_fetch o, R).
+  Proof.
+    intros o R Hok HR. unfold fetch_toks. destruct o as [[nx cnt pct rows ties]|]; cbn [opt_clause app option_map optb ft_count] in *.
+    - unfold ps_fetch, ast_of_fetch. cbn [ft_next ft_count ft_percent ft_rows ft_ties].
+      rewrite <- (sscanf_digits cnt Hok).
+      destruct nx, pct, rows as [[|]|], ties; cbn [app cur advance lit]; unfold is_numeric_literal; isT_conc; cbn iota; cbn [negb orb bind cur advance lit];
+        isT_conc; cbn iota; cbn [negb orb bind cur advance lit]; isT_conc; cbn iota; cbn [negb orb bind cur advance lit]; isT_conc; cbn iota;
+        cbn [negb orb bind cur advance lit]; isT_conc; cbn iota; try reflexivity.
+    - unfold ps_fetch. hd_rw HR. reflexivity.
   Qed.
 
   (* ---------------------------------------------------------------------------------------------- *)
@@ -870,7 +883,7 @@ Section SP.
       negb (isT t TyFrom) && negb (isT t TyEOF) && negb (isT t TySemicolon) && negb (isT t TyRParen) && negb (is_setop t)
       && negb (is_clause_start t) = false.
   Proof.
-    intros t H. unfold tyin, Titems, T0, T1, T2, T3, T4, T5, Tstop in H. cbn [existsb] in H. unfold is_setop, is_clause_start, isT.
+    intros t H. unfold tyin, Titems, T0, T1, T2, T3, T4, T5, T6, Tstop in H. cbn [existsb] in H. unfold is_setop, is_clause_start, isT.
     destruct (tty_eqb (ty t) TyFrom); [reflexivity|].
     destruct (tty_eqb (ty t) TyEOF); [reflexivity|].
     destruct (tty_eqb (ty t) TySemicolon); [reflexivity|].
@@ -884,6 +897,7 @@ Section SP.
     destruct (tty_eqb (ty t) TyOrder); [reflexivity|].
     destruct (tty_eqb (ty t) TyLimit); [reflexivity|].
     destruct (tty_eqb (ty t) TyOffset); [reflexivity|].
+    destruct (tty_eqb (ty t) TyFetch); [repeat rewrite orb_true_r; reflexivity|].
     destruct (tty_eqb (ty t) TyReturning); [repeat rewrite orb_true_r; reflexivity|].
     destruct (tty_eqb (ty t) TyOn); [repeat rewrite orb_true_r; reflexivity|]. discriminate H.
   Qed.
@@ -901,23 +915,25 @@ Section SP.
       length (select_tail_toks sr s ++ stop) < fuel ->
       parse_select md sf pe d (select_tail_toks sr s ++ stop) = Val (ast_of_select s, stop).
   Proof.
-    intros sr [dist don items from joins wh gb hv ob lim off] stop d Hok Hflag Hstop Hdep Hlen.
-    unfold select_ok in Hok. cbn [s_distinct s_distinct_on s_items s_from s_joins s_where s_group s_having s_order s_limit s_offset] in Hok.
+    intros sr [dist don items from joins wh gb hv ob lim off fe] stop d Hok Hflag Hstop Hdep Hlen.
+    unfold select_ok in Hok. cbn [s_distinct s_distinct_on s_items s_from s_joins s_where s_group s_having s_order s_limit s_offset s_fetch] in Hok.
     repeat (let H := fresh "Hk" in apply andb_prop in Hok; destruct Hok as [Hok H]).
-    rename Hok into Hdon1. rename Hk10 into Hdon. rename Hk9 into Hne. rename Hk8 into Hitems. rename Hk7 into Hfrom. rename Hk6 into Hnojoin. rename Hk5 into Hjoins.
-    rename Hk4 into Hwh. rename Hk3 into Hgb. rename Hk2 into Hhv. rename Hk1 into Hob. rename Hk0 into Hlim. rename Hk into Hoff.
+    rename Hok into Hdon1. rename Hk11 into Hdon. rename Hk10 into Hne. rename Hk9 into Hitems. rename Hk8 into Hfrom. rename Hk7 into Hnojoin. rename Hk6 into Hjoins.
+    rename Hk5 into Hwh. rename Hk4 into Hgb. rename Hk3 into Hhv. rename Hk2 into Hob. rename Hk1 into Hlim. rename Hk0 into Hoff. rename Hk into Hfe.
     unfold select_bare_alias_free in Hflag. cbn [s_items] in Hflag.
     unfold select_depth in Hdep. cbn [s_distinct_on s_items s_joins s_where s_group s_having s_order] in Hdep.
-    unfold select_tail_toks in *. cbn [s_distinct s_distinct_on s_items s_from s_joins s_where s_group s_having s_order s_limit s_offset] in *.
-    pose proof (sel_follow_hd stop Hstop) as H6.
-    assert (H5 : hd_in T5 (offset_toks off ++ stop)) by (apply hd_opt; [exact H6|reflexivity]).
-    assert (H4 : hd_in T4 (limit_toks lim ++ offset_toks off ++ stop)) by (apply hd_opt; [exact H5|reflexivity]).
-    assert (H3 : hd_in T3 (orderby_toks sr ob ++ limit_toks lim ++ offset_toks off ++ stop)) by (apply hd_list; [exact H4|reflexivity]).
-    assert (H2 : hd_in T2 (having_toks sr hv ++ orderby_toks sr ob ++ limit_toks lim ++ offset_toks off ++ stop)) by (apply hd_opt; [exact H3|reflexivity]).
-    assert (H1 : hd_in T1 (group_toks sr gb ++ having_toks sr hv ++ orderby_toks sr ob ++ limit_toks lim ++ offset_toks off ++ stop)) by (apply hd_list; [exact H2|reflexivity]).
-    assert (H0 : hd_in T0 (where_toks sr wh ++ group_toks sr gb ++ having_toks sr hv ++ orderby_toks sr ob ++ limit_toks lim ++ offset_toks off ++ stop)) by (apply hd_opt; [exact H1|reflexivity]).
+    unfold select_tail_toks in *. cbn [s_distinct s_distinct_on s_items s_from s_joins s_where s_group s_having s_order s_limit s_offset s_fetch] in *.
+    pose proof (sel_follow_hd stop Hstop) as H7.
+    assert (H6 : hd_in T6 (fetch_toks fe ++ stop)) by (apply hd_opt; [exact H7|reflexivity]).
+    assert (H5 : hd_in T5 (offset_toks off ++ fetch_toks fe ++ stop)) by (apply hd_opt; [exact H6|reflexivity]).
+    assert (H4 : hd_in T4 (limit_toks lim ++ offset_toks off ++ fetch_toks fe ++ stop)) by (apply hd_opt; [exact H5|reflexivity]).
+    assert (H3 : hd_in T3 (orderby_toks sr ob ++ limit_toks lim ++ offset_toks off ++ fetch_toks fe ++ stop)) by (apply hd_list; [exact H4|reflexivity]).
+    assert (H2 : hd_in T2 (having_toks sr hv ++ orderby_toks sr ob ++ limit_toks lim ++ offset_toks off ++ fetch_toks fe ++ stop)) by (apply hd_opt; [exact H3|reflexivity]).
+    assert (H1 : hd_in T1 (group_toks sr gb ++ having_toks sr hv ++ orderby_toks sr ob ++ limit_toks lim ++ offset_toks off ++ fetch_toks fe ++ stop)) by (apply hd_list; [exact H2|reflexivity]).
+    assert (H0 : hd_in T0 (where_toks sr wh ++ group_toks sr gb ++ having_toks sr hv ++ orderby_toks sr ob ++ limit_toks lim ++ offset_toks off ++ fetch_toks fe ++ stop)) by (apply hd_opt; [exact H1|reflexivity]).
     repeat (rewrite <- app_assoc in * ).
-    set (Ro := offset_toks off ++ stop) in *.
+    set (Rfe := fetch_toks fe ++ stop) in *.
+    set (Ro := offset_toks off ++ Rfe) in *.
     set (Rl := limit_toks lim ++ Ro) in *.
     set (Rob := orderby_toks sr ob ++ Rl) in *.
     set (Rh := having_toks sr hv ++ Rob) in *.
@@ -972,7 +988,8 @@ Section SP.
     rewrite ps_order_ok; [|exact Hob|exact H4|lia|exact HlenRob]. cbn [bind].
     subst Rl. rewrite ps_limit_ok; [|exact Hlim|exact H5]. cbn [bind].
     subst Ro. rewrite ps_offset_ok; [|exact Hoff|exact H6]. cbn [bind].
-    hd_rw H6. cbn [orb]. reflexivity.
+    subst Rfe. rewrite ps_fetch_ok; [|exact Hfe|exact H7]. cbn [bind].
+    hd_rw H7. reflexivity.
   Qed.
 End SP.
 
@@ -1012,7 +1029,7 @@ Qed.
 
 (* the defect switch of the tree: an alias without AS after a bare column reference is not read *)
 Definition w_bare_alias : mselect :=
-  MkSelect false [] [IExpr (MIdent false "a") (Some (false, "b"))] [MkTable ["t"] None] [] None [] None [] None None.
+  MkSelect false [] [IExpr (MIdent false "a") (Some (false, "b"))] [MkTable ["t"] None] [] None [] None [] None None None.
 
 Theorem parse_render_select_refuted_bare_alias :
   exists s stop, select_ok s = true /\ query_follow stop /\
